@@ -1015,9 +1015,9 @@ def eval_alias(d):
                 else:
                     cobj[i] = float(cobj[i]) + float(rs.uniform(-1.0, 1.0))
         elif what == "cmatrix":
-            # on the unchanged code `self.C is cmatrix` until the strategy's first update (cma.py:100): writing to
-            # the array before that is writing to the strategy (reported separately); here only afterwards
-            if cm is None or any(s["count"] == 0 for s in last):
+            # F40 (fixed): `Strategy.__init__` kept the caller's array (`self.C is cmatrix` until the first update), so a
+            # caller write before a strategy's first update changed that strategy; the write is now made at any time
+            if cm is None:
                 tags.append("skipped-poke")
                 return
             cm *= 2
@@ -1152,6 +1152,11 @@ def alias_structured(rng):
         dict(cent="intlist", cm="f64", ind="view", ops=[["new", 2.0], ["new", 0.5], ["upd", 0], ["upd", 1],
                                                        ["recomp", 1, 12], ["upd", 1], ["upd", 0], ["poke", "cmatrix"],
                                                        ["upd", 0], ["upd", 1]]),
+        # F40: the caller re-uses HIS covariance array right after constructing a strategy, before its first update
+        dict(cent="f64", cm="f64", ind="list", ops=[["new", 1.0], ["poke", "cmatrix"], ["upd", 0], ["new", 0.5],
+                                                   ["poke", "cmatrix"], ["upd", 1], ["upd", 0]]),
+        dict(cent="list", cm="int", ind="ndarray", ops=[["new", 1.0], ["new", 2.0], ["upd", 0], ["poke", "cmatrix"],
+                                                       ["upd", 1], ["upd", 0]]),
     ]
     for sk in skeletons:
         d = rand_alias(rng, nops=0)
